@@ -38,6 +38,8 @@ type C09Case struct {
 	Servers []C09Server `json:"servers,omitempty"`
 	URL     string      `json:"url,omitempty"`
 	NoMatch bool        `json:"no_server_matches,omitempty"`
+	// a case about server matching alone (harness/c09srv.go); the fields above are then unused
+	Srv *C09SrvCase `json:"server_matching,omitempty"`
 }
 
 // every URL prefix a server stands for when its variables take their default or an enum value
@@ -99,7 +101,10 @@ func (c *C09Case) strip() {
 	// the URL as both routers read it: re-encoded by net/url
 	seen := c.URL
 	if u, err := url.Parse(c.URL); err == nil {
-		seen = u.String()
+		// the query (an empty one included: "...?") is not part of what servers and templates are matched against
+		v := *u
+		v.RawQuery, v.ForceQuery = "", false
+		seen = v.String()
 	}
 	for i := range c.Servers {
 		if m := c.Servers[i].pattern().FindStringSubmatch(seen); m != nil {
@@ -126,6 +131,7 @@ type C09Obs struct {
 }
 
 var varRe = regexp.MustCompile(`\{([^{}]+)\}`)
+var mixRe = regexp.MustCompile(`[^/]\{|\}[^/]`)
 
 func c09Doc(c *C09Case) *openapi3.T {
 	doc := &openapi3.T{OpenAPI: "3.0.0", Info: &openapi3.Info{Title: "t", Version: "1"}, Paths: openapi3.NewPaths()}
@@ -266,14 +272,27 @@ func c09Coq(c *C09Case, o *C09Obs) string {
 
 var c09Lits = []string{"a", "b", "items", "users", "v1", "x-1", "a.b"}
 var c09Vars = []string{"id", "x", "name", "k"}
+var c09Queries = []string{"?", "?a=1", "?a=1&b=%2F", "?x=/y?z"}
 var c09Methods = []string{"GET", "POST", "PUT", "DELETE"}
 var c09Vals = []string{"1", "abc", "b", "a", "items", "x y", "%41", "a.b", "42", "é"}
+
+// segments that hold a variable next to literal text (gorilla/mux: prefix([^/]+)suffix)
+var c09MixSegs = []string{"report.{ext}", "v{ver}", "{id}.json", "item-{k}-x"}
 
 func c09Template(r *Rng) string {
 	n := 1 + r.Intn(4)
 	var segs []string
 	used := map[string]bool{}
 	for i := 0; i < n; i++ {
+		if r.Chance(6) {
+			m := Pick(r, c09MixSegs)
+			v := varRe.FindStringSubmatch(m)[1]
+			if !used[v] {
+				used[v] = true
+				segs = append(segs, m)
+				continue
+			}
+		}
 		if r.Chance(40) {
 			v := Pick(r, c09Vars)
 			if used[v] {
@@ -359,6 +378,9 @@ func c09Random(r *Rng) C09Case {
 	c.Path = path
 	if r.Chance(35) {
 		c09AddServers(r, &c)
+		if r.Chance(25) && !strings.Contains(c.URL, "?") {
+			c.URL += Pick(r, c09Queries) // a query, or the bare marker of an empty one
+		}
 	}
 	return c
 }
@@ -423,6 +445,21 @@ func c09Directed() []C09Case {
 	add([]C09Path{{"/items/{id}/sub/{k}", []string{"GET", "PUT"}}, {"/items/{id}", []string{"GET"}}, {"/items", []string{"GET"}}},
 		[2]string{"GET", "/items/1/sub/2"}, [2]string{"PUT", "/items/1/sub/2"}, [2]string{"GET", "/items/1/sub"}, [2]string{"GET", "/items/1"}, [2]string{"GET", "/items"}, [2]string{"GET", "/items//sub/2"}, [2]string{"GET", "/items/a%2Fb"})
 	add([]C09Path{{"/", []string{"GET"}}, {"/{x}", []string{"GET"}}}, [2]string{"GET", "/"}, [2]string{"GET", "/q"}, [2]string{"GET", ""})
+	// a variable that does not start its segment next to a literal sibling: the literal wins
+	add([]C09Path{{"/files/report.json", []string{"GET"}}, {"/files/report.{ext}", []string{"GET"}}},
+		[2]string{"GET", "/files/report.json"}, [2]string{"GET", "/files/report.xml"}, [2]string{"GET", "/files/report."}, [2]string{"GET", "/files/report"})
+	add([]C09Path{{"/v1/x", []string{"GET"}}, {"/v{ver}/x", []string{"GET", "POST"}}, {"/{a}/x", []string{"PUT"}}},
+		[2]string{"GET", "/v1/x"}, [2]string{"POST", "/v1/x"}, [2]string{"GET", "/v2/x"}, [2]string{"PUT", "/v2/x"}, [2]string{"GET", "/v/x"}, [2]string{"PUT", "/w/x"})
+	add([]C09Path{{"/a/{id}.json", []string{"GET"}}, {"/a/{id}", []string{"GET"}}}, [2]string{"GET", "/a/5.json"}, [2]string{"GET", "/a/5"}, [2]string{"GET", "/a/.json"})
+	// documents with servers, URLs with a query or the bare marker of an empty one
+	for _, q := range []string{"", "?", "?a=1", "?a=/b"} {
+		for _, sv := range []C09Server{{URL: "https://api.example.com/v1"}, {URL: "/base"}} {
+			c := C09Case{Paths: []C09Path{{"/pets/{id}", []string{"GET"}}, {"/pets", []string{"GET"}}}, Method: "GET", Path: "/pets/7", Servers: []C09Server{sv}}
+			c.URL = sv.URL + c.Path + q
+			c.strip()
+			out = append(out, c)
+		}
+	}
 	return out
 }
 
@@ -439,12 +476,55 @@ func init() {
 			}
 		}
 		meta := &Meta{Property: "C09", Seed: seed, Histogram: map[string]int{}, Shard: 1000,
-			Rule: "directed literal/templated sibling families + seeded random documents (1-5 templates of 1-4 segments, shared prefixes, literal and templated siblings, trailing slashes; 1-4 methods each; 35% with one or two declared servers from a pool of relative, absolute, port, host-variable, path-variable, scheme-variable URLs - never one extending the other) x requests that fill a template (values incl. percent-escapes and non-ASCII) or perturb it (extra/missing/empty segment, trailing slash, other or unknown method, the template text itself), sent under a declared server (variables at their default or an enum value) or under another host / base path / a prefix not ending at a segment boundary; server matching is specified on the harness side and what follows the server is judged by the model; non-trivial = both routers were built; distinct by JSON of the case"}
+			Rule: "directed literal/templated sibling families + seeded random documents (1-5 templates of 1-4 segments, shared prefixes, literal and templated siblings, trailing slashes; 1-4 methods each; 35% with one or two declared servers from a pool of relative, absolute, port, host-variable, path-variable, scheme-variable URLs - never one extending the other) x requests that fill a template (values incl. percent-escapes and non-ASCII) or perturb it (extra/missing/empty segment, trailing slash, other or unknown method, the template text itself), sent under a declared server (variables at their default or an enum value) or under another host / base path / a prefix not ending at a segment boundary; server matching is specified on the harness side and what follows the server is judged by the model; 25% of the URLs under servers carry a query or the bare '?' of an empty one; 6% of the segments hold a variable next to literal text; + server-matching cases (directed + n/2 random: 1-3 declared server URLs from a pool with variables in scheme, host, port and path, adjacent variables, an unclosed brace, names with spaces x a URL that fills one of them (values incl. empty, with '-', '.', '/', escapes) or misses it by a character, followed by nothing, a path, '//', a query) judged against Model/Server.v and Spec/ServerSpec.v, and the server lists of the routed cases again; non-trivial = both routers were built; distinct by JSON of the case"}
 		seen := map[string]bool{}
-		var terms []string
-		var idx []int
+		var terms, sterms []string
+		var idx, sidx []int
+		if replay == "" {
+			for _, sc := range c09SrvDirected() {
+				sc := sc
+				cases = append(cases, C09Case{Srv: &sc})
+			}
+			r2 := NewRng(seed ^ 0x5eed09)
+			for i := 0; i < n/2; i++ {
+				sc := c09SrvRandom(r2)
+				cases = append(cases, C09Case{Srv: &sc})
+			}
+			// the server lists and URLs of the routed cases, too
+			for i := range cases {
+				if c := &cases[i]; c.Srv == nil && len(c.Servers) > 0 {
+					sc := C09SrvCase{URL: c.URL}
+					for _, sv := range c.Servers {
+						sc.Patterns = append(sc.Patterns, sv.URL)
+					}
+					cases = append(cases, C09Case{Srv: &sc})
+				}
+			}
+		}
 		for i := range cases {
 			c := &cases[i]
+			if c.Srv != nil {
+				o := runC09Srv(c.Srv)
+				meta.Cases = append(meta.Cases, map[string]any{"input": c, "go": o})
+				if o.Skip != "" {
+					meta.Histogram["srv_unparsable_url"]++
+					continue
+				}
+				if o.Panic != "" {
+					meta.GoViolation = append(meta.GoViolation, map[string]any{"signature": "panic:server-matching", "cases": []any{c}, "panic": o.Panic})
+					continue
+				}
+				sterms = append(sterms, c09SrvCoq(c.Srv, &o))
+				sidx = append(sidx, i)
+				key, _ := json.Marshal(c)
+				if !seen[string(key)] {
+					seen[string(key)] = true
+					meta.Distinct++
+				}
+				meta.Histogram[fmt.Sprintf("srv_matched=%v", o.Index >= 0)]++
+				meta.Histogram[fmt.Sprintf("srv_servers=%d", len(c.Srv.Patterns))]++
+				continue
+			}
 			o := runC09(c)
 			meta.Cases = append(meta.Cases, map[string]any{"input": c, "go": o})
 			if o.Build != "" {
@@ -461,10 +541,27 @@ func init() {
 			meta.Histogram[fmt.Sprintf("legacy_kind=%d", o.Legacy.Kind)]++
 			meta.Histogram[fmt.Sprintf("gorilla_kind=%d", o.Gorilla.Kind)]++
 			meta.Histogram[fmt.Sprintf("templates=%d", len(c.Paths))]++
+			if len(c.Servers) > 0 {
+				meta.Histogram["with_servers"]++
+			}
+			if strings.Contains(c.URL, "?") {
+				meta.Histogram["with_query"]++
+			}
+			for _, p := range c.Paths {
+				if mixRe.MatchString(p.Template) {
+					meta.Histogram["variable_inside_segment"]++
+					break
+				}
+			}
 		}
 		meta.NCases = len(cases)
-		meta.Files, _ = writeCasesAt(outDir, "cases", "From KV Require Import Model.Base Model.Router Exec.C09Exec.", "c09case", "judge", terms, meta.Shard, 0)
-		meta.IndexMap = idx
+		var off1, off2 []int
+		var f2 []string
+		meta.Files, off1 = writeCasesAt(outDir, "cases", "From KV Require Import Model.Base Model.Router Exec.C09Exec.", "c09case", "judge", terms, meta.Shard, 0)
+		f2, off2 = writeCasesAt(outDir, "srv", "From KV Require Import Model.Base Model.Router Model.Server Exec.C09SrvExec.", "c09srv", "judge_srv", sterms, meta.Shard, len(terms))
+		meta.Files = append(meta.Files, f2...)
+		meta.Offsets = append(off1, off2...)
+		meta.IndexMap = append(idx, sidx...)
 		writeMeta(outDir, meta)
 		fmt.Fprintf(os.Stderr, "C09: %d cases (%d built)\n", len(cases), len(terms))
 	}
